@@ -27,8 +27,10 @@
     - Return Metadata containing a Link object which can be can be signed
       and stored to disk
 """
+import codecs
 import glob
 import io
+import locale
 import logging
 import os
 import subprocess  # nosec
@@ -225,28 +227,47 @@ def _subprocess_run_duplicate_streams(cmd, timeout):
     stdout_fd, stdout_name = tempfile.mkstemp()
     stderr_fd, stderr_name = tempfile.mkstemp()
     try:
-        with io.open(  # pylint: disable=unspecified-encoding
-            stdout_name, "r"
-        ) as stdout_reader, os.fdopen(  # pylint: disable=unspecified-encoding
+        # Read raw bytes and decode incrementally, like a text stream would
+        # (universal newlines), to not depend on where our reads happen to fall
+        # relative to the child's writes (multi-byte characters, CR LF).
+        encoding = locale.getpreferredencoding(False)
+        with io.open(stdout_name, "rb") as stdout_reader, os.fdopen(
             stdout_fd, "w"
-        ) as stdout_writer, io.open(  # pylint: disable=unspecified-encoding
-            stderr_name, "r"
+        ) as stdout_writer, io.open(
+            stderr_name, "rb"
         ) as stderr_reader, os.fdopen(
             stderr_fd, "w"
         ) as stderr_writer:
             # Store stream results in mutable dict to update it inside nested helper
             streams = {"out": "", "err": ""}
+            decoders = {
+                name: io.IncrementalNewlineDecoder(
+                    codecs.getincrementaldecoder(encoding)(), translate=True
+                )
+                for name in streams
+            }
 
-            def _duplicate_streams():
+            def _read(reader, final):
+                """Helper to read raw bytes from a child process standard stream."""
+                # Read until EOF but at most `io.DEFAULT_BUFFER_SIZE` bytes per call.
+                # Reading and writing in reasonably sized chunks prevents us from
+                # subverting a timeout, due to being busy for too long or indefinitely.
+                size = io.DEFAULT_BUFFER_SIZE
+                if final:
+                    # The process has exited, read everything it has written
+                    written = os.fstat(reader.fileno()).st_size
+                    size = max(written - reader.tell(), 0)
+                return reader.read(size)
+
+            def _duplicate_streams(final=False):
                 """Helper to read from child process standard streams, write their
                 contents to parent process standard streams, and build up return values
                 for outer function.
                 """
-                # Read until EOF but at most `io.DEFAULT_BUFFER_SIZE` bytes per call.
-                # Reading and writing in reasonably sized chunks prevents us from
-                # subverting a timeout, due to being busy for too long or indefinitely.
-                stdout_part = stdout_reader.read(io.DEFAULT_BUFFER_SIZE)
-                stderr_part = stderr_reader.read(io.DEFAULT_BUFFER_SIZE)
+                stdout_raw = _read(stdout_reader, final)
+                stderr_raw = _read(stderr_reader, final)
+                stdout_part = decoders["out"].decode(stdout_raw, final)
+                stderr_part = decoders["err"].decode(stderr_raw, final)
                 sys.stdout.write(stdout_part)
                 sys.stderr.write(stderr_part)
                 sys.stdout.flush()
@@ -278,7 +299,7 @@ def _subprocess_run_duplicate_streams(cmd, timeout):
 
             # Read/write once more to grab everything that the process wrote between
             # our last read in the loop and exiting, i.e. breaking the loop.
-            _duplicate_streams()
+            _duplicate_streams(final=True)
 
     finally:
         # The work is done or was interrupted, the temp files can be removed
